@@ -2,6 +2,7 @@
 package c12
 
 import (
+	"bytes"
 	"fmt"
 	"math"
 	"os"
@@ -52,13 +53,16 @@ type Case struct {
 	IncludeHost int `json:"includeHost,omitempty"`
 	// Precision: Options.HistogramBucketTagPrecision (0: the default 6) - the bucket-range tag values
 	// get longer; Internal: Options.InternalTags - the reporter's own metrics get bigger
-	Precision uint    `json:"precision,omitempty"`
-	Internal  pbt.M   `json:"internal,omitempty"`
-	Queue     int     `json:"queue"`
-	PreAge    int     `json:"preAge,omitempty"`
-	Metrics   []MSpec `json:"metrics"`
-	Stream    []SOp   `json:"stream"`
-	Strategy  string  `json:"strategy"`
+	Precision uint  `json:"precision,omitempty"`
+	Internal  pbt.M `json:"internal,omitempty"`
+	// Dup: the destination is listed twice in HostPorts: it receives every batch twice - two datagrams
+	// of legal size, not one of double size
+	Dup      bool    `json:"dup,omitempty"`
+	Queue    int     `json:"queue"`
+	PreAge   int     `json:"preAge,omitempty"`
+	Metrics  []MSpec `json:"metrics"`
+	Stream   []SOp   `json:"stream"`
+	Strategy string  `json:"strategy"`
 	// Pred: before the reporter under test is built, ANOTHER reporter exists in the process (its own
 	// destination): 1 same wire protocol, closed again; 2 the OTHER wire protocol, closed again; 3 the
 	// other protocol, still open during the whole case. Reporters are independent objects: what one
@@ -98,6 +102,7 @@ func gen(t *rapid.T) Case {
 	if rapid.IntRange(0, 3).Draw(t, "includeHost?") == 0 {
 		c.IncludeHost = rapid.IntRange(1, 3).Draw(t, "includeHost")
 	}
+	c.Dup = rapid.IntRange(0, 5).Draw(t, "dup") == 0
 	if rapid.IntRange(0, 3).Draw(t, "precision?") == 0 {
 		c.Precision = uint(rapid.SampledFrom([]int{1, 2, 12, 40}).Draw(t, "precision"))
 	}
@@ -348,8 +353,13 @@ func run(c Case) (pbt.Outcome, error) {
 	if c.Binary {
 		proto = m3.Binary
 	}
+	hostPorts, mult := []string{sink.Addr}, 1
+	if c.Dup {
+		hostPorts, mult = []string{sink.Addr, sink.Addr}, 2
+		out.Classes = append(out.Classes, "destination-listed-twice")
+	}
 	r, err := m3.NewReporter(m3.Options{
-		HostPorts: []string{sink.Addr}, Service: "svc", Env: "test", CommonTags: commonOpt, IncludeHost: c.IncludeHost > 0,
+		HostPorts: hostPorts, Service: "svc", Env: "test", CommonTags: commonOpt, IncludeHost: c.IncludeHost > 0,
 		Protocol: proto, MaxQueueSize: c.Queue, MaxPacketSizeBytes: int32(maxPacket),
 		HistogramBucketTagPrecision: c.Precision, InternalTags: c.Internal.Std(),
 	})
@@ -368,7 +378,7 @@ func run(c Case) (pbt.Outcome, error) {
 		mu.Lock()
 		n := batches
 		mu.Unlock()
-		return sink.WaitAll(n)
+		return sink.WaitAll(n * mult)
 	}
 	if c.PreAge > 0 {
 		ac := r.AllocateCounter("age", nil)
@@ -381,7 +391,7 @@ func run(c Case) (pbt.Outcome, error) {
 				// packet size is minimal and the reporter's own metrics need packets of their own);
 				// wait until the worker has emitted them and the sink has received everything
 				// emitted, so that only a few hundred small datagrams can ever sit in the socket buffer
-				if !sink.WaitAll(i+1) || !syncSink() {
+				if !sink.WaitAll((i+1)*mult) || !syncSink() {
 					return out, fmt.Errorf("harness: sink did not keep up with the pre-ageing datagrams (machine too busy?)")
 				}
 			}
@@ -498,6 +508,27 @@ func run(c Case) (pbt.Outcome, error) {
 		errs.Addf("%d batches were handed to the thrift client but only %d datagrams arrived within 30s (a batch the transport refused, or loss)", n, sink.Count())
 	}
 	grams := sink.Datagrams()
+	if c.Dup {
+		// each batch is sent to the destination once per mention, one after the other
+		var once [][]byte
+		for i := 0; i+1 < len(grams); i += 2 {
+			if !bytes.Equal(grams[i], grams[i+1]) {
+				errs.Addf("destination listed twice: datagrams %d and %d (%d and %d bytes) should be the two copies of one batch", i, i+1, len(grams[i]), len(grams[i+1]))
+				break
+			}
+			once = append(once, grams[i])
+		}
+		if len(grams)%2 != 0 {
+			errs.Addf("destination listed twice: %d datagrams arrived, want an even number (every batch twice)", len(grams))
+		}
+		for _, d := range grams {
+			if len(d) > maxPacket {
+				errs.Addf("destination listed twice: a datagram of %d bytes, MaxPacketSizeBytes is %d", len(d), maxPacket)
+				break
+			}
+		}
+		grams = once
+	}
 
 	// ---- deciding oracle: size bound, nothing dropped/duplicated/reordered
 	var got []string
